@@ -132,7 +132,12 @@ pub fn build_path(f: &Facts, path: PathSel, noise: &JaxNoise) -> Result<Ontology
             } else {
                 noise
             };
-            SCRATCH.with(|s| via_jax(&expected_facts(f, path), noise, path == PathSel::JaxT, s))
+            // (and silent rows in phenotype.hpoa, unless the case brings its own)
+            let mut with_rows = noise.clone();
+            if with_rows.decipher_rows.is_empty() && with_rows.not_rows.is_empty() {
+                (with_rows.decipher_rows, with_rows.not_rows) = silent_rows(&expected_facts(f, path));
+            }
+            SCRATCH.with(|s| via_jax(&expected_facts(f, path), &with_rows, path == PathSel::JaxT, s))
         }
         PathSel::Sub { root, leaves } => {
             let src = via_binary(f, 3)?;
@@ -185,10 +190,44 @@ pub fn restricted_facts(f: &Facts, kept: &std::collections::BTreeSet<u32>) -> Fa
     exp
 }
 
+/// Rows of phenotype.hpoa that describe nothing, as a function of the facts: rows of another database (also under the
+/// number of an OMIM record of the facts) and negated rows (for a record of the facts and for a disease that occurs
+/// only negated). Three fact sets in four get some.
+pub fn silent_rows(f: &Facts) -> (Vec<(u32, u32)>, Vec<(u8, u32, String, u32)>) {
+    let mut h = Fnv::new();
+    h.u64(f.terms.len() as u64 ^ 0x5151);
+    h.u64(f.edges.len() as u64);
+    for k in 0..3 {
+        h.u64(f.recs[k].len() as u64);
+    }
+    let x = h.finish();
+    let b = |i: u32| (x >> i) as u8;
+    let mut decipher_rows = Vec::new();
+    let mut not_rows = Vec::new();
+    if let Some(t) = f.terms.first() {
+        if b(50) % 2 == 0 {
+            decipher_rows.push((f.recs[OMIM].first().map_or(16, |r| r.id), t.id));
+            decipher_rows.push((u32::from(b(52)), f.terms[f.terms.len() / 2].id));
+        }
+        if b(51) % 2 == 0 {
+            let k = 1 + (b(53) % 2);
+            if let Some(r) = f.recs[k as usize].first() {
+                not_rows.push((k, r.id, text_name(&r.name), f.terms[f.terms.len() - 1].id));
+            }
+            let mut id = 900_000 + u32::from(b(54));
+            while f.recs[k as usize].iter().any(|r| r.id == id) {
+                id += 1;
+            }
+            not_rows.push((k, id, "only negated".to_string(), t.id));
+        }
+    }
+    (decipher_rows, not_rows)
+}
+
 /// A spelling of the four files that is a function of the facts: half of the fact sets are written plainly, the
 /// others with variations that leave the described ontology unchanged (tag order inside stanzas, other tags
 /// before / after the name and between is_a lines, trailing modifiers on is_a lines, explicit `is_obsolete: false`,
-/// [Typedef] stanzas, extra columns, no newline after the last line).
+/// [Typedef] stanzas, extra columns, no newline after the last line, DECIPHER rows and negated rows in phenotype.hpoa).
 pub fn derived_noise(f: &Facts) -> JaxNoise {
     let mut h = Fnv::new();
     h.u64(f.terms.len() as u64);
@@ -483,6 +522,56 @@ pub fn large_record_facts(ng: u32, no: u32, nr: u32) -> Facts {
 /// some on the deepest node.
 pub fn deep_facts(depth: u32, mult: u32, recs: u32) -> Facts {
     deep_chain_facts(depth, mult, recs, 37)
+}
+
+/// One term with `np` direct parents (more than an 8-bit counter holds; half of them below HP:0000118, half below
+/// a second top-level term), a grandchild below it, and `recs` records per kind on the child, the grandchild
+/// and some of the parents. The child is supplied before its parents; ids are scattered by `mult`.
+pub fn fanin_facts(np: u32, mult: u32, recs: u32) -> Facts {
+    const M: u64 = 9_999_991;
+    let id_of = |k: u32| -> u32 {
+        match k {
+            0 => 1,
+            1 => 118,
+            _ => {
+                let id = ((u64::from(k) * u64::from(mult)) % M) as u32 + 2;
+                if id == 118 {
+                    9_999_998
+                } else {
+                    id
+                }
+            }
+        }
+    };
+    let mut f = Facts::default();
+    f.version = (2024, 2, 29);
+    let (branch, child, grandchild) = (id_of(2), id_of(3), id_of(4));
+    let parent = |i: u32| id_of(5 + i);
+    f.terms.push(TermFact { id: child, name: "many parents".into(), obsolete: false, replacement: None });
+    f.terms.push(TermFact { id: grandchild, name: "below many parents".into(), obsolete: false, replacement: None });
+    f.edges.push((grandchild, child));
+    for i in (0..np).rev() {
+        f.terms.push(TermFact { id: parent(i), name: format!("p{i}"), obsolete: false, replacement: None });
+        f.edges.push((parent(i), if i % 2 == 0 { 118 } else { branch }));
+        f.edges.push((child, parent(i)));
+    }
+    f.terms.push(TermFact { id: branch, name: "second branch".into(), obsolete: false, replacement: None });
+    f.terms.push(TermFact { id: 118, name: "Phenotypic abnormality".into(), obsolete: false, replacement: None });
+    f.terms.push(TermFact { id: 1, name: "All".into(), obsolete: false, replacement: None });
+    f.edges.push((branch, 1));
+    f.edges.push((118, 1));
+    for k in 0..3 {
+        for r in 0..recs {
+            let t = match r % 3 {
+                0 => child,
+                1 => grandchild,
+                _ => parent((r * 7 + k as u32) % np),
+            };
+            f.recs[k].push(RecFact { id: 10 + r, name: format!("rec{k}-{r}"), terms: vec![t] });
+        }
+    }
+    f.ann_calls = f.canonical_ann_calls();
+    f
 }
 
 /// `deep_facts` with a redundant grandparent link on every `shortcut_every`-th node (0: none; the
